@@ -352,6 +352,7 @@ func cmdCheck(args []string) int {
 	known := loadKnown(*verif)
 	violations := 0
 	replayTried, replayDone, replayTotal := map[string]int{}, map[string]bool{}, 0
+	replayRunDeadline = time.Now().Add(5 * time.Minute)
 	var knownHit []string
 	var vioNames []string
 	discharged, total, covers, coversOK := 0, 0, 0, 0
